@@ -388,7 +388,10 @@ func c04cases(thorough bool) []c04case {
 		add("Delete", Doc("Delete", RAct, "actor", Carol, "object", val(objs)), 0)
 	}
 	for _, actors := range combos([]interface{}{Carol, Emb("Person", Carol, "inbox", Carol+"/inbox"), Dave, Erin, fragActor}, maxN) {
-		for _, object := range []interface{}{Alice, Bob, Carol, L{Bob, Alice}, Emb("Person", Alice)} {
+		// (ids that match this actor's in scheme, host and path but carry a query / fragment / trailing slash,
+		// or differ in path case, are not this actor)
+		for _, object := range []interface{}{Alice, Bob, Carol, L{Bob, Alice}, Emb("Person", Alice), Alice + "?tab=followers", Alice + "#main-key", Alice + "/",
+			strings.Replace(Alice, "/u/alice", "/u/Alice", 1), L{Alice + "#main-key", Bob}} {
 			for _, of := range []pub.OnFollowBehavior{pub.OnFollowDoNothing, pub.OnFollowAutomaticallyAccept, pub.OnFollowAutomaticallyReject} {
 				add("Follow", Doc("Follow", RAct, "actor", val(actors), "object", object), of)
 			}
@@ -450,7 +453,7 @@ func c04cases(thorough bool) []c04case {
 func C04(tier string) int {
 	res := NewResult("C04", tier, "exploration")
 	cases := c04cases(res.Thorough())
-	res.Rule = fmt.Sprintf("each handled inbox activity type with every sequence of 1..%d objects / targets / actors from per-type alphabets (IRI and embedded, owned and foreign, Collection / OrderedCollection / non-collection targets, absent / unordered / ordered likes and shares, missing documents), OnFollow in {nothing, accept, reject}, Follow object in {this actor, another local actor, remote, list, embedded}, x callback configuration {none, wrapped, wrapped failing, 'other' override}, plus single-hook configurations (exactly one other type X wrapped / overridden, for all 11 X): %d requests; a reference model written from the documentation is applied to the initial state and diffed against the real final state; deliveries and callback order are compared too; plus every ordered pair of single-valued activities (up to 4 per type and OnFollow mode; thorough: all) delivered one after the other to ONE application (the application's OnFollow mode and callback configuration - none / every type overridden by 'other' functions - may change between the two) with the model applied step by step, every triple over a reduced alphabet (the first case - Add / Remove: two - of each type and OnFollow mode), and single faults inside the default effect", map[bool]int{false: 2, true: 3}[res.Thorough()], len(cases))
+	res.Rule = fmt.Sprintf("each handled inbox activity type with every sequence of 1..%d objects / targets / actors from per-type alphabets (IRI and embedded, owned and foreign, Collection / OrderedCollection / non-collection targets, absent / unordered / ordered likes and shares, missing documents), OnFollow in {nothing, accept, reject}, Follow object in {this actor, another local actor, remote, list, embedded, this actor's id plus a query / a fragment / a trailing slash / in another path case}, x callback configuration {none, wrapped, wrapped failing, 'other' override}, plus single-hook configurations (exactly one other type X wrapped / overridden, for all 11 X): %d requests; a reference model written from the documentation is applied to the initial state and diffed against the real final state; deliveries and callback order are compared too; plus every ordered pair of single-valued activities (up to 4 per type and OnFollow mode; thorough: all) delivered one after the other to ONE application (the application's OnFollow mode and callback configuration - none / every type overridden by 'other' functions - may change between the two) with the model applied step by step, every triple over a reduced alphabet (the first case - Add / Remove: two - of each type and OnFollow mode), and single faults inside the default effect", map[bool]int{false: 2, true: 3}[res.Thorough()], len(cases))
 	res.Assumptions = []string{"order among several followers added by one Follow is not asserted", "where a later object/target makes the effect fail, the effect on earlier ones (list order) stays, as the code does; the statement does not forbid it",
 		"top-level @context of stored values is not compared (C01)"}
 	var mu sync.Mutex
